@@ -7,12 +7,7 @@ package statet
 // arbitrary start state s (a lemma parameter) and compares (result, final state) -- packed by
 // verifspec.P2 -- and, with EqT, the sequence of user callbacks / sub-programs that were run.
 
-// unit.Success and fp.ErrOptionEmpty are package-level variables; the lemmas that depend on them state
-// their initial value as an assumption (requires unit.Success.IsSuccess() / fp.ErrOptionEmpty != nil).
-
 //@ import "github.com/csgura/fp/try"
-//@ import "github.com/csgura/fp/unit"
-//@ import "github.com/csgura/fp/option"
 
 // ---- FlatMap: state flows left to right; a failure stops the program ---------------------------
 
@@ -31,7 +26,6 @@ package statet
 
 //@ lemma putDef[S any](s0 S, s S)
 //@   prop C17
-//@   requires unit.Success.IsSuccess()
 //@   ensures Eq(verifspec.P2(Put(s0)(s)), verifspec.P2(try.Success(fp.Unit{}), s0))
 //
 //@ lemma getDef[S any](s S)
@@ -40,7 +34,6 @@ package statet
 //
 //@ lemma modifyDef[S any](f func(S) S, s S)
 //@   prop C17
-//@   requires unit.Success.IsSuccess()
 //@   ensures EqT(verifspec.P2(Modify(f)(s)), verifspec.P2(try.Success(fp.Unit{}), f(s)))
 //
 //@ lemma modifySDef[S, A any](fss func(S) S, fsa func(S) A, s S)
@@ -54,7 +47,6 @@ package statet
 //
 //@ lemma modifyTDef[S any](f func(S) fp.Try[S], s S)
 //@   prop C17 C02
-//@   requires unit.Success.IsSuccess()
 //@   ensures f(s).IsSuccess() ==> EqT(verifspec.P2(ModifyT(f)(s)), verifspec.P2(try.Success(fp.Unit{}), f(s).Get()))
 //@   ensures f(s).IsFailure() ==> EqT(verifspec.P2(ModifyT(f)(s)), verifspec.P2(try.Failure[fp.Unit](f(s).Failed().Get()), s))
 //
@@ -76,7 +68,6 @@ package statet
 //
 //@ lemma putWithDef[S, V any](w func(S, V) S, v V, s S)
 //@   prop C17
-//@   requires unit.Success.IsSuccess()
 //@   ensures EqT(verifspec.P2(PutWith(w)(v)(s)), verifspec.P2(try.Success(fp.Unit{}), w(s, v)))
 //
 //@ lemma runDef[S, A any](f func(S) (A, S), s S)
@@ -97,7 +88,6 @@ package statet
 //
 //@ lemma apOptionDef[S, A, B any](st fp.StateT[S, fp.Func1[A, B]], a fp.Option[A], s S)
 //@   prop C17 C02
-//@   requires fp.ErrOptionEmpty != nil
 //@   ensures a.IsDefined() ==> EqT(verifspec.P2(ApOption(st, a)(s)), verifspec.P2(FlatMap(st, func(f fp.Func1[A, B]) fp.StateT[S, B] { return Pure[S](f(a.Get())) })(s)))
 //@   ensures !a.IsDefined() ==> EqT(verifspec.P2(ApOption(st, a)(s)), verifspec.P2(FlatMap(st, func(f fp.Func1[A, B]) fp.StateT[S, B] { return FromTry[S](try.Failure[B](fp.ErrOptionEmpty)) })(s)))
 //@   ensures EqT(verifspec.P2(ApOption(st, a)(s)), verifspec.P2(ApTry(st, try.FromOption(a))(s)))
@@ -130,17 +120,14 @@ package statet
 
 //@ lemma putGet[S any](s0 S, s S)
 //@   prop C17
-//@   requires unit.Success.IsSuccess()
 //@   ensures Eq(verifspec.P2(FlatMap(Put(s0), func(_ fp.Unit) fp.StateT[S, S] { return Get[S]() })(s)), verifspec.P2(try.Success(s0), s0))
 //
 //@ lemma getPut[S any](s S)
 //@   prop C17
-//@   requires unit.Success.IsSuccess()
 //@   ensures Eq(verifspec.P2(FlatMap(Get[S](), Put[S])(s)), verifspec.P2(try.Success(fp.Unit{}), s))
 //
 //@ lemma putPut[S any](s1 S, s2 S, s S)
 //@   prop C17
-//@   requires unit.Success.IsSuccess()
 //@   ensures Eq(verifspec.P2(FlatMap(Put(s1), func(_ fp.Unit) fp.StateT[S, fp.Unit] { return Put(s2) })(s)), verifspec.P2(Put(s2)(s)))
 //@   ensures Eq(verifspec.P2(FlatMap(Put(s1), func(_ fp.Unit) fp.StateT[S, fp.Unit] { return Put(s2) })(s)), verifspec.P2(try.Success(fp.Unit{}), s2))
 //
@@ -150,7 +137,6 @@ package statet
 //
 //@ lemma modifyLaw[S any](f func(S) S, s S)
 //@   prop C17
-//@   requires unit.Success.IsSuccess()
 //@   ensures EqT(verifspec.P2(Modify(f)(s)), verifspec.P2(FlatMap(Get[S](), func(x S) fp.StateT[S, fp.Unit] { return Put(f(x)) })(s)))
 //
 //@ lemma threeSteps[S, A, B any](ma fp.StateT[S, A], mb fp.StateT[S, B], s S)
